@@ -3,7 +3,7 @@ import os
 from . import common
 
 DEFAULT = dict(n=3, head=1, manual=0, limit=4, cap=3, payload=0, ctx=0, inj_root=0, inj_state=0,
-               plans=0, serial=0, history=0, log="off", defroot=0x3fff, defstate=0x3fff, xf=(), tapi=0, sdata=0, constcb=0, order=0)
+               plans=0, serial=0, history=0, log="off", defroot=0x3fff, defstate=0x3fff, xf=(), tapi=0, sdata=0, constcb=0, order=0, virt=0)
 
 def make(**kw):
     c = dict(DEFAULT); c.update(kw)
@@ -36,12 +36,13 @@ def flags(c):
     if c.get("sdata"): f.append("-DH_SDATA=1")
     if c.get("constcb"): f.append("-DH_CONSTCB=1")
     if c.get("order"): f.append("-DH_ORDER=1")
+    if c.get("virt"): f.append("-DH_VIRT=1")
     return f
 
 def name(c):
     return "n%d h%d m%d L%d C%s p%d x%d ir%d is%d P%dS%dH%d log=%s dr%x ds%x" % (
         c["n"], c["head"], c["manual"], c["limit"], str(c["cap"]) if c["cap"] > 0 else "default(%d)" % c["n"], c["payload"], c["ctx"], c["inj_root"], c["inj_state"],
-        c["plans"], c["serial"], c["history"], c["log"], c["defroot"], c["defstate"]) + ("".join(" +" + x.replace("FFSM2_", "") for x in c.get("xf", ()))) + (" template-api" if c.get("tapi") else "") + (" state-data" if c.get("sdata") else "") + (" const-callbacks" if c.get("constcb") else "") + (" options-reversed" if c.get("order") else "")
+        c["plans"], c["serial"], c["history"], c["log"], c["defroot"], c["defstate"]) + ("".join(" +" + x.replace("FFSM2_", "") for x in c.get("xf", ()))) + (" template-api" if c.get("tapi") else "") + (" state-data" if c.get("sdata") else "") + (" const-callbacks" if c.get("constcb") else "") + (" options-reversed" if c.get("order") else "") + (" virtual-injected-callbacks" if c.get("virt") else "")
 
 def build(c, variant, extra_flags=(), cxx="g++", std="c++11", opt="-O0"):
     src = os.path.join(common.HARNESS, "machine_harness.cpp")
